@@ -511,7 +511,7 @@ Lemma lang_agrees n arg : T n ->
   lang_fuel doc (nav_fuel doc) (map ascii_lower arg) (Some n) = Ok (s_lang_fn doc (Row n) arg).
 Proof.
   intros Tn. destruct (ancestor_ok_chain doc Hinv Hshape n Tn) as [al [Ea Hc]].
-  unfold s_lang_fn. rewrite (spec_ancestors doc Hinv Hshape Hparents n al Tn Ea).
+  unfold s_lang_fn. rewrite (spec_ancestors doc Hinv Hshape n al Tn Ea).
   apply (lang_chain _ arg eq_refl n al Hc Tn). pose proof (TV n Tn) as V. unfold valid in V. unfold nav_fuel. lia.
 Qed.
 
